@@ -705,11 +705,12 @@ Definition elist (e : env) (k : string) : option (list tok) := assoc k (e_lists 
 Definition elist_given (e : env) (k : string) : bool := match assoc k (e_lists e) with Some _ => true | None => false end.
 
 (* error state accumulated by an init function: any error (-> rejected), and the extra class bits *)
-Record errs := mkErrs { x_err : bool; x_bug : bool; x_mem : bool }.
-Definition no_errs := mkErrs false false false.
-Definition flag_input (c : bool) (x : errs) : errs := if c then mkErrs true (x_bug x) (x_mem x) else x.
-Definition flag_bug (c : bool) (x : errs) : errs := if c then mkErrs true true (x_mem x) else x.
-Definition flag_mem (c : bool) (x : errs) : errs := if c then mkErrs true (x_bug x) true else x.
+Record errs := mkErrs { x_err : bool; x_bug : bool; x_mem : bool; x_file : bool }.
+Definition no_errs := mkErrs false false false false.
+Definition flag_input (c : bool) (x : errs) : errs := if c then mkErrs true (x_bug x) (x_mem x) (x_file x) else x.
+Definition flag_bug (c : bool) (x : errs) : errs := if c then mkErrs true true (x_mem x) (x_file x) else x.
+Definition flag_mem (c : bool) (x : errs) : errs := if c then mkErrs true (x_bug x) true (x_file x) else x.
+Definition flag_file (c : bool) (x : errs) : errs := if c then mkErrs true (x_bug x) (x_mem x) true else x.
 
 Definition Q0 : Q := 0 # 1.
 
@@ -867,3 +868,82 @@ Definition kmoving_validate (restart_out_freq : Z) (e : env) : errs * kx :=
       else
         let ng' := if Nat.eqb (List.length sched) 0 then ng else Z.of_nat (List.length sched) - 1 in
         (flag_input (p1 || p2 || p3 || esch) x0, mkKx k true ns ng').
+
+
+(* ================================================================================================ *)
+(* Round 5                                                                                           *)
+(* ================================================================================================ *)
+
+(* ---- OPES: kernel widths and neighbour-list parameters ------------------------------------------------ *)
+(* gaussianSigma is read into a list pre-sized to the number of variables (default 0); without adaptiveSigma every
+   width must be positive (repaired: it was not checked and the kernels divide by it).  neighborListParameters, when
+   given: exactly two values, the first > 1, the second > 0 and <= 1.16 - 1/sqrt(first), i.e. (for second < 1.16)
+   (1.16 - second)^2 * first >= 1. *)
+Definition opes_sigma_nlist_validate (n : nat) (e : env) : errs * (list Q * list Q) :=
+  let adaptive := eflag e "adaptiveSigma" false in
+  let '(sg, es) := match elist e "gaussianSigma" with None => (repeat Q0 n, false) | Some ts => getV (Some ts) (repeat Q0 n) end in
+  if negb adaptive && (es || negb (forallb (fun q => Qltb Q0 q) sg)) then (flag_input true no_errs, (sg, []))
+  else
+    if eflag e "neighborList" false then
+      let '(np, en) := getV (elist e "neighborListParameters") [] in
+      match np with
+      | [] => (flag_input (es || en) no_errs, (sg, []))
+      | [p0; p1] =>
+          if Qle_bool p0 (1 # 1) || Qle_bool p1 Q0 || Qle_bool (116 # 100) p1 || Qltb (((116 # 100) - p1) * ((116 # 100) - p1) * p0) (1 # 1)
+          then (flag_input true no_errs, (sg, np))
+          else (flag_input (es || en) no_errs, (sg, np))
+      | _ => (flag_input true no_errs, (sg, np))
+      end
+    else (flag_input (es || elist_given e "neighborListParameters") no_errs, (sg, [])).
+
+(* ---- rmsd: reference positions vs the atoms of the group --------------------------------------------- *)
+(* [g] atoms in the group; refPositions given inline with [m] positions, or a file that exists or not and yields [m]
+   positions for the group.  Error classes: a missing file is a file error. *)
+Definition rmsd_validate (g : nat) (inline : option nat) (file : option (bool * nat)) : errs * nat :=
+  if Nat.eqb g 0 then (flag_input true no_errs, O)
+  else match inline with
+       | Some m => (flag_input (negb (Nat.eqb m g) || match file with Some _ => true | None => false end) no_errs, m)
+                   (* a refPositionsFile next to refPositions is never looked up: check_keywords *)
+       | None => match file with
+                 | Some (false, _) => (flag_file true no_errs, O)
+                 | Some (true, m) => (flag_input (negb (Nat.eqb m g)) no_errs, m)
+                 | None => (flag_input true no_errs, O)
+                 end
+       end.
+
+(* ---- ebMeta: the target distribution ------------------------------------------------------------------ *)
+(* [file] = the values of targetDistFile on the grid (None: no readable file).  Repaired: a distribution without any
+   positive value is rejected.  targetDistMinVal v: 0 < v < 1 -> values below v*max are raised; v = 0 -> zeros are
+   raised to the smallest positive value; anything else is an error. *)
+Fixpoint qmin (l : list Q) (d : Q) : Q := match l with [] => d | a :: r => let m := qmin r d in if Qle_bool a m then a else m end.
+Fixpoint qmax (l : list Q) (d : Q) : Q := match l with [] => d | a :: r => let m := qmax r d in if Qle_bool m a then a else m end.
+
+Definition ebmeta_validate (expand : bool) (file : option (list Q)) (e : env) : errs * list Q :=
+  let x0 := flag_input expand no_errs in
+  match file with
+  | None => (flag_file true x0, [])
+  | Some vals =>
+      let x1 := flag_input (Qltb (qmin vals Q0) Q0) x0 in
+      if Qle_bool (qmax vals Q0) Q0 then (flag_input true x1, vals)
+      else
+        let '(v, p0) := ereal e "targetDistMinVal" (1 # 1000000) in
+        let thr := if Qltb Q0 v && Qltb v (1 # 1) then (v * qmax vals Q0)%Q
+                   else qmin (filter (fun q => Qltb Q0 q) vals) (qmax vals Q0) in     (* v = 0: smallest positive value *)
+        let x2 := flag_input (p0 || negb ((Qltb Q0 v && Qltb v (1 # 1)) || Qeq_bool v Q0)) x1 in
+        (x2, map (fun q => if Qltb q thr then thr else q) vals)
+  end.
+
+(* ---- allocation sizes: every size computed from user input, its guard, and the bound it implies ------- *)
+Record alloc_site := mkAlloc { as_name : string; as_elements : Z; as_accepted : bool }.
+
+(* the sites of the model, for given inputs *)
+Definition alloc_sites (host : Z) (dims : list dim) (mult : Z) (hr : hrconf) (scripted : option tok) (rof : Z) (c : cvconf) : list alloc_site :=
+  let '(gv, gnt, _) := grid_init host true dims mult 8 in
+  let h := histrestr_init host hr in
+  let sc := scripted_init host scripted in
+  let cv := colvar_init rof c in
+  [ mkAlloc "colvar_grid::setup data.assign(nt)" gnt (match gv with Accept => true | Reject => false end);
+    mkAlloc "histogramRestraint p.resize(nbins) x3" (r_state h * 3) (negb (r_err h));
+    mkAlloc "scripted vector x.resize(size)" (r_state sc) (negb (r_err sc));
+    mkAlloc "calc_acf histories acf_stride*(acf_length+acf_offset+1)"
+            (s_cfstride (r_state cv) * (s_cflen (r_state cv) + s_cfoff (r_state cv) + 1)) (negb (r_err cv) && s_corr (r_state cv)) ].
